@@ -1815,6 +1815,12 @@ class BaseEvolutionOperations(object):
                 cursor.close()
 
             for index_name, info in six.iteritems(constraints):
+                if info.get('check') and not info.get('index'):
+                    # A CHECK constraint is not an index: it can't be
+                    # dropped as one, and it doesn't stand in for an index
+                    # over the same columns.
+                    continue
+
                 results[index_name] = {
                     'unique': info.get('unique', False),
                     'columns': info.get('columns', []),
